@@ -86,7 +86,7 @@ class C11(PropBase):
             "bounded-exhaustive for length 2 and sampled for length 3 (quick) / exhaustive length 3 (thorough), plus random sequences of "
             "50-300 frames with time steps; -U on/off; dump after every frame; compared with the model and with a reference fold "
             "('latest value of the last frame that carries the parameter, or blank/previous if it carried none') built from the Lean "
-            "spec line of each frame; every frame is also fed twice in a row (re-feed changes nothing). Non-trivial = sequence in "
+            "spec line of each frame; every frame is also fed twice in a row (re-feed changes nothing); BDS 5,0 replies whose bits would also pass as BDS 6,0 after a velocity squitter / a 6,0 reply (one register per reply). Non-trivial = sequence in "
             "which a later frame of another format follows a frame that set a parameter; distinct by sequence.")
 
     def run_seqs(self, rep, run, rng, alpha, seqs, u, driver_ok, specs, implf):
@@ -189,7 +189,48 @@ class C11(PropBase):
             longs = [[rng.randrange(n) for _ in range(rng.randrange(50, 300))] for _ in range(6 if tier == "quick" else 60)]
             if not self.run_seqs(rep, run, rng, alpha, longs, u, driver_ok, specs, implf):
                 return
+        if not self.precedence(rep, run, rng, driver_ok):
+            return
         rep.exhaustive.append(f"all {len(pairs)} sequences of length 2 over the {n}-frame alphabet, both paths")
         rep.sample({"alphabet_kinds": [k for k, _ in alpha[:32]], "example_sequence": [alpha[i][0] for i in triples[0]]})
+
+    def precedence(self, rep, run, rng, driver_ok):
+        """a Comm-B reply is decoded as ONE register: a BDS 5,0 reply whose bits would also pass as BDS 6,0 carries ground
+        speed / track, not heading / airspeed / vertical rate (fixed precedence 1,7 > 4,0 > 5,0 > 6,0)"""
+        from props import c10 as X
+        both = []
+        for _ in range(40):
+            mb = F.bds50(rng.randrange(1, 250), -rng.randrange(1, 1000), rng.randrange(20, 250), rng.choice([rng.randrange(1, 187), -rng.randrange(1, 187)]), rng.randrange(20, 187))
+            if X.valid50(mb) and X.nonzero50(mb) and X.plausible50(X.dec50(mb)) and X.valid60(mb) and X.nonzero60(mb) and X.plausible60(X.dec60(mb)):
+                both.append(mb)
+        if len(both) < 5:
+            raise core.Broken("could not build registers valid as both BDS 5,0 and 6,0", str(len(both)))
+        for ci, mb in enumerate(both[:12]):
+            for u in (False, True):
+                for relaxed in (False, True):
+                    a = 0x4D0000 + ci
+                    vel = F.df17(5, a, F.me_velocity(1, 0, 0, 0, 0, 200, 1, 150, 0, 1, 21, 0, 0))
+                    r60 = F.df20(0, 0, 0, F.ac13_q1(500), F.bds60(-300, 250, 180, -40, -38), a)
+                    x50 = (F.df20(0, 0, 0, F.ac13_q1(500), mb, a) if ci % 2 else F.df21(0, 0, 0, 0o1234, mb, a))
+                    pre = [F.df11(5, a, 0), F.df20(0, 0, 0, F.ac13_q1(500), F.bds17({7, 9, 16, 24}), a), vel] + ([r60] if ci % 3 else [])
+                    ops = ["reset", gen.cfg_op(use_update=u, relaxed=relaxed, delete_after=600), "case 0"] + gen.seg(pre) + ["dump", "case 1"] + gen.seg([x50]) + ["dump"]
+                    impl, _, model = run.execute(ops, model=driver_ok)
+                    rep.evaluations += len(pre) + 1; rep.traces += 1
+                    self.corr(rep, impl, model, {"precedence": ci, "use_update": u, "relaxed": relaxed}, ops)
+                    ci_ = core.split_cases(impl)
+                    before = gen.parse_dump(ci_.get("0", [])).get(a, {})
+                    after = gen.parse_dump(ci_.get("1", [])).get(a, {})
+                    d = X.dec50(mb)
+                    for k in ("vrate", "hdg", "ias", "mach"):
+                        if after.get(k) != before.get(k):
+                            self.fail(rep, f"BDS 5,0 reply MB={mb:014X} changed {k} {before.get(k)} -> {after.get(k)}: a reply decoded as 5,0 carries no {k} (it is not also decoded as 6,0)",
+                                      {"ops": ops, "param": k, "mb": "%014X" % mb})
+                            return False
+                    for k in ("gs", "track"):
+                        if not X.shown_ok(after.get(k), d[k]):
+                            self.fail(rep, f"BDS 5,0 reply MB={mb:014X}: {k}={after.get(k)}, the register says {float(d[k]):.2f}", {"ops": ops, "param": k})
+                            return False
+                    rep.nontriv(("precedence", mb, u, relaxed))
+        return True
 
 PROP = C11()
